@@ -8,7 +8,7 @@
            trace-validation stages of props/c08.py). *)
 From Coq Require Import ZArith Bool List.
 From Texel Require Import TT.Entry TT.Table TT.Atomic TT.TBRegion
-     TT.EntryProofs TT.TableProofs TT.AtomicProofs TT.TBRegionProofs TT.TTTheorems TT.BucketProofs.
+     TT.EntryProofs TT.TableProofs TT.AtomicProofs TT.TBRegionProofs TT.TTTheorems TT.BucketProofs TT.Alloc TT.AllocProofs.
 Import ListNotations.
 Local Open Scope Z_scope.
 
@@ -194,3 +194,53 @@ Print Assumptions C08_bucket_refines_map.
 Theorem C08_bucket_initial : forall n t, 512 <= n < 2 ^ 64 -> new_tt n = Ok t -> Inv t.
 Proof. exact new_tt_inv. Qed.
 Print Assumptions C08_bucket_initial.
+
+(** Allocation failure.  [obj] = table state + validity of the `table` pointer; the allocator is
+    an oracle ([ok]).  Under the invariant "pointer valid with exactly tableSize entries, or
+    pointer null AND tableSize = 0" (true of a default-constructed object, preserved by every
+    reSize whatever the allocator answers):
+    - a reSize that RETURNS leaves a valid table of exactly the rounded requested size (and, if it
+      allocated, a cleared one satisfying the invariant of C08_bucket_refines_map);
+    - a reSize that THROWS leaves pointer null and tableSize = 0, so the `numEntries == tableSize`
+      early return can never be taken on a null table.
+    Callers may call reSize / setupTT again at any time; insert / probe / setBusy / getByte / putByte
+    require [valid = true], which every normal return of reSize establishes. *)
+Theorem C08_resize_alloc_failure_safe : forall o n ok,
+  AllocInv o -> 0 <= n < 2 ^ 64 ->
+  match reSizeA o n ok with
+  | Returned o' =>
+      valid o' = true /\ tableSize (st o') = round_size n /\ AllocInv o' /\
+      (round_size n <> tableSize (st o) ->
+         ok = true /\ mem (st o') = [] /\ usedSize (st o') = round_size n /\ generation (st o') = 0 /\
+         (512 <= round_size n -> W64 (contemptHash (st o)) -> Inv (st o')))
+  | Threw o' =>
+      ok = false /\ valid o' = false /\ tableSize (st o') = 0 /\ AllocInv o' /\
+      round_size n <> tableSize (st o)
+  | RErr => False
+  end.
+Proof. exact resize_alloc_failure_safe. Qed.
+Print Assumptions C08_resize_alloc_failure_safe.
+
+Theorem C08_resize_sequences_safe : forall calls o,
+  AllocInv o -> Forall (fun c => 0 <= fst c < 2 ^ 64) calls ->
+  exists o', run_resizes o calls = Some o' /\ AllocInv o'.
+Proof. exact resize_sequences_safe. Qed.
+Print Assumptions C08_resize_sequences_safe.
+
+Theorem C08_resize_recovers : forall o n, AllocInv o -> valid o = false -> 0 <= n < 2 ^ 64 ->
+  exists o', reSizeA o n true = Returned o' /\ valid o' = true /\ tableSize (st o') = round_size n.
+Proof. exact resize_recovers. Qed.
+Print Assumptions C08_resize_recovers.
+
+(** the halve-and-retry loop of EngineMainThread::setupTT, for every allocator behaviour *)
+Theorem C08_setupTT_safe : forall fuel o nEntries oracle,
+  AllocInv o -> 0 <= nEntries < 2 ^ 64 ->
+  let '(o', k) := setupTT fuel o nEntries oracle in
+  AllocInv o' /\ (valid o' = false -> tableSize (st o') = 0) /\
+  (valid o = true -> valid o' = false -> (1 <= k)%nat).
+Proof. exact setupTT_safe. Qed.
+Print Assumptions C08_setupTT_safe.
+
+Theorem C08_fresh_object : AllocInv fresh.
+Proof. exact fresh_inv. Qed.
+Print Assumptions C08_fresh_object.
